@@ -149,6 +149,21 @@ def c10_cases(tier, seed):
             ops += ["new 9 " + cfg, "load 9"]
             w = len(ops) - 3
         cases.append((" ; ".join(ops), kind, {"writer_step": w, "cfg": cfg}))
+    # (2b) under ignore-duplicates: adjacent DIFFERENT entries where the escaped file form of the second is the first, byte for byte
+    for a, b in (([0x5c, 0x5c], [0x5c]), ([0x61, 0x5c, 0x6e, 0x62], [0x61, 0x0a, 0x62]), ([0xe9, 0x5c, 0x72, 0x7a], [0xe9, 0x0d, 0x7a]),
+                 ([0x5c, 0x6e], [0x0a, 0x78][:1] + [0x78][:0] or [0x0a])):
+        for cfg in ("100 0 1", "3 0 1"):
+            ops = ["new 0 " + cfg, "add 0 " + enc(a), "addo 0 " + enc(b), "add 0 " + enc([0x7a]), "save 0", "new 9 " + cfg, "load 9"]
+            cases.append((" ; ".join(ops), "save", {"writer_step": len(ops) - 3, "cfg": cfg}))
+    # (2c) the SAME history object loads the file again (after clearing itself, or on top of what it holds)
+    for k in range(6):
+        cfg = "100 0 %d" % (k % 2)
+        es = [enc(rand_entry(rng, ALPHA10, 6)) for _ in range(rng.randint(1, 4))] + [enc([0x7a, 0x30 + k])]
+        ops = ["new 0 " + cfg] + ["add 0 " + e for e in es] + ["save 0", "new 1 " + cfg, "load 1", "clear 1", "load 1"]
+        if k % 3 == 0:
+            ops += ["clear 1", "load 1"]
+        ops += ["new 9 " + cfg, "load 9"]
+        cases.append((" ; ".join(ops), "reload", {"writer_step": None, "cfg": cfg, "reload_step": len(ops) - 3, "first_load": len(es) + 3}))
     # (3) legacy files
     for _ in range(n // 3):
         lines = []
@@ -197,6 +212,10 @@ def c10_corr(res, exe, driver, tier, seed, tmp):
                 why = "legacy file did not load: R=%s" % final[0]
             elif final[1] != exp:
                 why = "legacy load: entries %r, expected every non-empty line verbatim %r" % (final[1], exp)
+        elif kind == "reload":
+            a, b = obs[meta["first_load"]], obs[meta["reload_step"]]
+            if b[0] != "ok" or b[1] != a[1]:
+                why = "the same object loading the file again (after clear): entries %r, the first load gave %r" % (b[1], a[1])
         elif meta["writer_step"] is None:
             pass        # (the expected content is the model's: the writer's own entries are not the file's)
         else:
@@ -495,7 +514,8 @@ def c11_cases(tier, seed):
                 continue
             r = rng.random()
             if r < 0.55:
-                ops.append("add %d %s" % (i, enc(line(i))))
+                # (both public ways of entering a line: add and add_owned)
+                ops.append("%s %d %s" % ("addo" if rng.random() < 0.3 else "add", i, enc(line(i))))
             elif r < 0.92:
                 ops.append("append %d" % i)
             else:
@@ -556,7 +576,7 @@ def c11_oracle(case, meta, ticks, obs):
             if r != "ok":
                 return "load failed: %s" % r
             pending[int(t[1])] = []
-        elif name == "add":
+        elif name in ("add", "addo"):
             if r == "true":
                 pending[int(t[1])].append(dec(t[2]))
         elif name == "save":
